@@ -86,6 +86,7 @@ func (x *Exec) nmI(i Int) Int {
 		x.ntmp++
 		x.sol.send(fmt.Sprintf("(declare-const %s (_ BitVec %d))\n(assert (= %s %s))\n", n, i.W, n, i.T))
 		x.named[i.T] = n
+		x.vars = append(x.vars, n)
 		i.T = n
 	}
 	return i
@@ -99,6 +100,7 @@ func (x *Exec) nmB(b Bool) Bool {
 		x.ntmp++
 		x.sol.send(fmt.Sprintf("(declare-const %s Bool)\n(assert (= %s %s))\n", n, n, b.T))
 		x.named[b.T] = n
+		x.vars = append(x.vars, n)
 		return Bool{T: n}
 	}
 	return b
@@ -112,6 +114,7 @@ func (x *Exec) nmF(f Flt) Flt {
 		x.ntmp++
 		x.sol.send(fmt.Sprintf("(declare-const %s (_ FloatingPoint 11 53))\n(assert (= %s %s))\n", n, n, f.T))
 		x.named[f.T] = n
+		x.vars = append(x.vars, n)
 		return Flt{T: n}
 	}
 	return f
@@ -301,10 +304,7 @@ func (x *Exec) reportInScope(kind, id string) {
 	if !x.job.wantFinding(key) {
 		return
 	}
-	m := map[string]string{}
-	if len(x.vars) > 0 {
-		m = parseModel(x.sol.getValues(x.vars))
-	}
+	m := x.modelOf(nil)
 	f := &Finding{Kind: kind, ID: id, Func: fn, Where: x.curPos, Key: key,
 		Tape: x.renderTape(m), Abstract: append([]string{}, x.abstract...), Job: x.job.describe()}
 	x.job.addFinding(f)
